@@ -37,6 +37,7 @@ def _leaf(fn):
 
 
 def run(ctx, obs):
+    getv_siblings(ctx, obs)
     from ..rules import sweeps
     sweeps.run(ctx, obs, 'C08')
     prog = ctx.prog
@@ -383,3 +384,37 @@ def purity(ctx, obs, rule='PURE'):
         for p in ('model', 'data'):
             w = sorted(l for (l, k, key) in s.writes if is_param_loc(l) and param_of(l) == p and key != 'index')
             obs.check(not w, rule, q, f'the fitter does not write into `{p}`', f'writes {w}', '', where(prog, f, f.node))
+
+
+def getv_siblings(ctx, obs, rule='SIB'):
+    """rdm.compare._get_v and util.matrix.get_v are two implementations of one function (RDM covariance V from the pattern
+    covariance); the fitters and pooling use the second, compare() the first.  Cross-check: both distinguish the same forms of
+    sigma_k (None / variance vector / matrix) - a form one of them handles and the other does not makes `fit` and `compare`
+    disagree on which inputs are legal (csr_matrix of a 1-D array is a 1 x n matrix: dimension error in C @ Sigma @ C')."""
+    prog = ctx.prog
+    qa, qb = 'rdm.compare._get_v', 'util.matrix.get_v'
+    fa, fb = prog.func(qa), prog.func(qb)
+
+    def forms(f):
+        p = f.pos_params[1] if len(f.pos_params) > 1 else 'sigma_k'
+        out = set()
+        for n in ast.walk(f.node):
+            if isinstance(n, ast.Compare) and len(n.ops) == 1:
+                l, r = n.left, n.comparators[0]
+                if isinstance(l, ast.Name) and l.id == p and isinstance(n.ops[0], (ast.Is, ast.IsNot)) and isinstance(r, ast.Constant) and r.value is None:
+                    out.add('none')
+                if isinstance(l, ast.Attribute) and l.attr == 'ndim' and isinstance(l.value, ast.Name) and l.value.id == p \
+                        and isinstance(r, ast.Constant):
+                    out.add(f'ndim{r.value}')
+                if isinstance(l, ast.Call) and getattr(l.func, 'attr', getattr(l.func, 'id', '')) == 'ndim' and l.args \
+                        and isinstance(l.args[0], ast.Name) and l.args[0].id == p and isinstance(r, ast.Constant):
+                    out.add(f'ndim{r.value}')
+            if isinstance(n, ast.Call) and getattr(n.func, 'attr', getattr(n.func, 'id', '')) in ('diags', 'diag') \
+                    and any(isinstance(x, ast.Name) and x.id == p for a in n.args for x in ast.walk(a)):
+                out.add('ndim1')
+        return out
+    a, b = forms(fa), forms(fb)
+    only_a, only_b = sorted(a - b), sorted(b - a)
+    obs.check(not only_a and not only_b, rule, qb, 'both implementations of get_v distinguish the same forms of sigma_k',
+              f'{qa} handles {sorted(a)}, {qb} handles {sorted(b)}: a variance vector accepted by compare() is not handled by the '
+              f'fitters / pooling (forms only in one: {only_a + only_b})', '', where(prog, fb, fb.node))
